@@ -85,7 +85,11 @@ class Provenance:
         if r == 'cast':
             return 'as(%s)%s' % (self.of_op(rv['op'], depth - 1), suffix)
         if r == 'bin':
-            return '%s(%s,%s)%s' % (rv['bop'].replace('WithOverflow', ''), self.of_op(rv['a'], depth - 1), self.of_op(rv['b'], depth - 1), suffix)
+            bop = rv['bop'].replace('WithOverflow', '')
+            xs = [self.of_op(rv['a'], depth - 1), self.of_op(rv['b'], depth - 1)]
+            if bop in ('Add', 'Mul', 'Eq', 'Ne', 'BitAnd', 'BitOr'):
+                xs.sort()
+            return '%s(%s,%s)%s' % (bop, xs[0], xs[1], suffix)
         if r == 'un':
             return '%s(%s)%s' % (rv['uop'], self.of_op(rv['a'], depth - 1), suffix)
         if r == 'discr':
@@ -136,7 +140,10 @@ def fn_sites(F, fn):
             k = t['kind']
             if any(k.startswith(x) for x in IGNORED_ASSERTS):
                 continue
-            desc = ','.join(prov.of_op(o) for o in t['ops'])
+            descs = [prov.of_op(o) for o in t['ops']]
+            if k in ('Overflow:Add', 'Overflow:Mul'):
+                descs.sort()          # commutative: operand order must not change the key
+            desc = ','.join(descs)
             out.append(Site(fn, bid, 'assert:' + k, desc, line, t, exp))
         elif t['t'] == 'call':
             c = t['callee']
